@@ -32,7 +32,7 @@ func inConsumerScope(f *ssa.Function) bool {
 }
 
 func checkC20(c *Ctx, r *Report) {
-	r.Explanation = "Decides structural no-crash / no-poison obligations over every function that consumes backend-produced bytes (listing parsers, metrics extractor, Anthropic response/stream translators, discovery and health clients, error relays): (R1) no single-value type assertion on an interface value, no explicit panic, no integer division or modulo by a non-constant, and no slice/array index computed from a decoded number without a dominating bounds comparison; (R2) response bodies of Olla's own outbound requests are read through io.LimitReader before being buffered; (R3) all listing parsers agree: an entry is appended only under a non-empty-name guard on the very value stored as its Name, and empty input yields a non-nil empty slice; (R5) every numeric field of ProviderMetrics is written only from util.SafeInt32/SafeFloat32 results (or sums/copies of such fields), and SafeFloat32 rejects NaN and ±Inf. The catalogue-consistency clause (failed or rejected listing leaves the catalogue alone) is decided by C10-R1/R5."
+	r.Explanation = "Decides structural no-crash / no-poison obligations over every function that consumes backend-produced bytes (listing parsers, metrics extractor, Anthropic response/stream translators, discovery and health clients, error relays): (R1) no single-value type assertion on an interface value, no explicit panic, no integer division or modulo by a non-constant, and no slice/array index computed from a decoded number without a dominating bounds comparison; (R2) response bodies of Olla's own outbound requests are read through io.LimitReader before being buffered; (R3) all listing parsers agree: an entry is appended only under a non-empty-name guard on the very value stored as its Name, and empty input yields a non-nil empty slice; (R5) every numeric field of ProviderMetrics is written only from util.SafeInt32/SafeFloat32 results (or sums/copies of such fields), and SafeFloat32 rejects NaN and ±Inf. (R6/R7) a handler never waits for the proxy goroutine while the pipe carrying a backend (error) body is neither drained nor closed, and only Close is deferred on an upstream body — a backend cannot make Olla hang with an oversized or stalled body. The catalogue-consistency clause (failed or rejected listing leaves the catalogue alone) is decided by C10-R1/R5."
 	r.NotDecided = "absence of nil dereferences, hangs, panics inside third-party decoders (jsoniter, gjson, expr, encoding/json are trusted), index safety of internal (non backend-derived) indices, state poisoning beyond R3 and C10."
 	r.Assumptions = []string{"third-party decoders do not panic on arbitrary input", "go/ssa instruction kinds enumerate the panic-capable operations considered"}
 
@@ -147,7 +147,12 @@ func checkC20(c *Ctx, r *Report) {
 	r.Rule("C20-R5", "every store to an int32/float32/float64 field of domain.ProviderMetrics is the result of util.SafeInt32/SafeFloat32, a copy of such a field, or an integer sum of such fields; util.SafeFloat32 returns a constant when math.IsNaN or math.IsInf holds", 10)
 	checkFiniteMetrics(c, r)
 
+	// ---------- R6 (shared with C18): an oversized / unread error body must not hang the handler ----------
+	r.WithAlias(map[string]string{"C18-R6": "C20-R6", "C18-R7": "C20-R7"}, func() { checkC18(c, r) })
+
 	addMutants(
+		Mutant{Prop: "C20", Name: "bounded-error-drain", File: "internal/app/handlers/handler_translation.go", Rule: "C20-R6",
+			Old: "	errorBody, _ := io.ReadAll(pipeReader)", New: "	errorBody, _ := io.ReadAll(io.LimitReader(pipeReader, 64<<10))"},
 		Mutant{Prop: "C20", Name: "single-value-assert", File: "internal/adapter/translator/anthropic/streaming.go", Rule: "C20-R1", Canary: true,
 			Old: "	index, _ := toolCall[\"index\"].(float64)", New: "	index := toolCall[\"index\"].(float64)"},
 		Mutant{Prop: "C20", Name: "parser-name-guard-widened", File: "internal/adapter/registry/profile/parsers.go", Rule: "C20-R3",
